@@ -1,6 +1,7 @@
 """EXT12 — extension of the C12 machinery to pipeline stages that property C12 does not name:
 delay, average, accumulate, mc_select, detrend, broadcast (model lean/PsiModel/StagesExt.lean, theorems
-lean/PsiProofs/C12Ext.lean, registry lean/registry/EXT12.txt).  NOT part of `./check C12`.
+lean/PsiProofs/C12Ext.lean) and rms_band, capture, events_to_info (lean/PsiModel/StagesExt2.lean, theorems
+lean/PsiProofs/C12Ext2.lean); registry lean/registry/EXT12.txt.  NOT part of `./check C12`.
 
 Run:  PYTHONPATH=. PSI_REPO=... /venv/bin/python -m harness.c12_ext [--tier quick|thorough] [--replay path]
 Prints `EXT12 ... exit 0`, or `EXT-MISMATCH stage=<name> replay=<path>` (exit 1); `EXT-KNOWN ...` lines name the
@@ -14,6 +15,7 @@ languages.  The oracle is the whole-signal definition on the concatenated output
 """
 import argparse
 import json
+import logging
 import os
 import sys
 import time
@@ -27,6 +29,8 @@ from .framework import Spec
 FS = 1000.0
 MD = {'m': 1}
 X0 = 1000.0
+CAPFS = 8.0            # capture: requests are t0 = r2 / 16 s, so t0 * CAPFS = r2 / 2 exactly (half-way cases included)
+EDGES = {0: 'falling', 1: 'rising', 2: 'other'}
 
 
 def _pipeline():
@@ -99,8 +103,9 @@ def exc_name(e):
 class Ext(Spec):
     PROP = 'EXT12'
     MODEL = 'stages'
-    PROOF_MODULES = ['PsiProofs.C12Ext']
-    STAGES = ['delay', 'average', 'acc_time', 'acc_stack', 'mc_select', 'detrend', 'broadcast']
+    PROOF_MODULES = ['PsiProofs.C12Ext', 'PsiProofs.C12Ext2']
+    STAGES = ['delay', 'average', 'acc_time', 'acc_stack', 'mc_select', 'detrend', 'broadcast',
+              'rms_band', 'capture', 'events_to_info']
 
     # ------------------------------------------------------------------ cases
     def chunking(self, rng, maxn=9):
@@ -167,6 +172,46 @@ class Ext(Spec):
                 c['kind'] = rng.choice(['pd2', 'pd1'])
         elif stage == 'broadcast':
             c.update(k=rng.randint(0, 3), m=rng.randint(0, 5))
+        elif stage == 'rms_band':
+            n = rng.choice([4, 5, 6, 8])
+            ops = [['pd', k, 0] for k in self.chunking(rng, rng.choice([9, 3 * n + 2]))]
+            c.update(n=n, dim=rng.choice([1, 1, 2]), ops=ops)
+            if malformed:
+                what = rng.choice(['plain-first', 'plain-later', 'gap', 'n0'])
+                if what == 'n0':
+                    c['n'] = 0
+                    c['ops'] = ops or [['pd', 2, 0]]
+                elif not ops:
+                    c['ops'] = [['plain', 3, 0]]
+                elif what == 'plain-first':
+                    ops[0][0] = 'plain'
+                elif what == 'plain-later':
+                    ops[rng.randint(0, len(ops) - 1)][0] = 'plain'
+                else:
+                    ops[rng.randint(0, len(ops) - 1)][2] = rng.choice([-1, 1, 3])
+        elif stage == 'capture':
+            lens = self.chunking(rng, 12)
+            total = sum(lens)
+            ops = [['p', 'pd', k] for k in lens]
+            nreq = rng.choice([0, 1, 1, 1, 2, 3])
+            for _ in range(nreq):
+                # requested start: twice the sample number (odd = half-way between two samples)
+                r2 = rng.choice([2 * rng.randint(0, total + 1), 2 * rng.randint(0, total + 1), rng.randint(-3, 2 * total + 3)])
+                ops.insert(rng.randint(0, len(ops)), ['q', r2] if rng.random() < 0.8 else ['q', None])
+            c.update(dim=rng.choice([1, 1, 2]), ops=ops)
+            if malformed:
+                for o in ops:
+                    if o[0] == 'p' and rng.random() < 0.5:
+                        o[1] = 'plain'
+        elif stage == 'events_to_info':
+            sends, ts = [], 0
+            for _ in range(rng.randint(0, 5)):
+                k = rng.choice([0, 0, 1, 2, 3, 5])
+                sends.append([[rng.choice([0, 1, 1, 2]), ts + i] for i in range(k)])
+                ts += k
+            c.update(edge=rng.choice([0, 1]), sends=sends)
+            if malformed:
+                sends.insert(rng.randint(0, len(sends)), 'events')
         return c
 
     def cases(self, rng, tier):
@@ -186,6 +231,18 @@ class Ext(Spec):
                     yield {'stage': 'acc_time', 'n': n, 'cb': cb, 'ann': 1, 'axis': -1,
                            'ops': [['p', 1 + (i % 2), 0] for i in range(m)], 's0': 3}
         yield {'stage': 'acc_stack', 'n': 0, 'cb': 1, 'ops': [['b']] * 3, 'variant': 'plain-epoch-new', 's0': 0}
+        # rms_band: a chunk edge at every offset -2..+2 around every multiple of n; capture: the request arriving before
+        # every chunk of a fixed chunking, for every requested start sample (early, on a chunk edge, late)
+        for total in range(0, 3 * 4 + 2):
+            for first in range(0, total + 1):
+                yield {'stage': 'rms_band', 'n': 4, 'dim': 1, 's0': 7, 'ops': [['pd', first, 0], ['pd', total - first, 0]]}
+        lens = [2, 0, 3, 1]
+        for at in range(0, len(lens) + 1):
+            for r in range(-1, sum(lens) + 2):
+                ops = [['p', 'pd', k] for k in lens]
+                ops.insert(at, ['q', 2 * r])
+                yield {'stage': 'capture', 'dim': 1, 's0': 5, 'ops': ops}
+                yield {'stage': 'capture', 'dim': 1, 's0': 0, 'ops': ops + [['q', None], ['p', 'pd', 2], ['q', 2 * r + 8], ['p', 'pd', 3], ['p', 'pd', 4]]}
         for stage in self.STAGES:
             for _ in range(reps):
                 yield self.one(rng, stage)
@@ -218,6 +275,22 @@ class Ext(Spec):
             return [f"xnew detrend {c['mode']}"] + [f"xep {c['kind']} {k}" for k in c['chunks']]
         if st == 'broadcast':
             return [f"xnew broadcast {c['k']}"] + ['xany'] * c['m']
+        if st == 'rms_band':
+            return [f"xband {c['n']}"] + [f'xbpush {o[0]} {o[1]} {o[2]}' for o in c['ops']]
+        if st == 'capture':
+            lines = ['xcap']
+            for o in c['ops']:
+                if o[0] == 'p':
+                    lines.append(f'xcpush {o[1]} {o[2]}')
+                elif o[1] is None:
+                    lines.append('xcq none')
+                else:
+                    # `round(t0 * fs)` is the library's own rounding kernel (a parameter of the model)
+                    lines.append(f'xcq {o[1]} {round(o[1] / 16 * CAPFS)}')
+            return lines
+        if st == 'events_to_info':
+            return [f"xinfo {c['edge']}"] + ['xievents' if sd == 'events' else
+                                             'xipairs ' + (','.join(f'{e}:{t}' for e, t in sd) or '-') for sd in c['sends']]
         raise ValueError(st)
 
     # ------------------------------------------------------------------ implementation side
@@ -486,6 +559,178 @@ class Ext(Spec):
                 lines.append(f'err {exc_name(e)}')
         return lines
 
+    # ---- second extension: rms_band, capture, events_to_info
+    @staticmethod
+    def _cols(a):
+        """cells of a 1-D / 2-D block of the stream `row r, column k ↦ r·1e6 + X0 + k`: `X k` per column"""
+        a = np.asarray(a, dtype=float)
+        if a.ndim == 1:
+            a = a[None, :]
+        out = []
+        for col in a.T:
+            k = col[0] - X0
+            ok = k == int(k) and k >= 0 and all(v == r * 1e6 + X0 + k for r, v in enumerate(col.tolist()))
+            out.append(f'X{int(k)}' if ok else '?')
+        return ','.join(out) if out else '-'
+
+    def _impl_rms_band(self, c):
+        P = _pipeline()
+        n, dim = c['n'], c['dim']
+        total = sum(o[1] for o in c['ops'])
+        rng = np.random.RandomState(total * 13 + n)
+        whole = rng.randn(*((2, total) if dim == 2 else (total,))) * 10
+        labels = ['a', 'b'] if dim == 2 else 'c'
+        dur = n / FS
+        if n and int(round(FS * dur)) != n:
+            return ['HARNESS-EXC block length not representable']
+        fl, fh = (0.9 * FS / n, FS) if n else (100.0, 200.0)       # bins 1 … last: the values tell the blocks apart
+
+        def mk(lo, hi, s0, kind='pd'):
+            return P.PipelineData(whole[..., lo:hi], fs=FS, s0=s0, channel=labels, metadata=dict(MD)) if kind == 'pd' \
+                else np.array(whole[..., lo:hi])
+        ref = None
+        if n and total >= n:                                        # whole-signal definition: the stage fed the whole signal at once
+            r = []
+            P.rms_band(FS, fl, fh, dur, r.append).send(mk(0, total, c['s0']))
+            ref = np.asarray(r[0])
+        out = []
+        co = P.rms_band(FS, fl, fh, dur, out.append)
+        lines, pos, s0, emitted, dead = ['ok'], 0, c['s0'], 0, False
+        for kind, k, gap in c['ops']:
+            if dead:
+                lines.append('err Dead')
+                continue
+            s0 += gap
+            d = mk(pos, pos + k, s0, kind)
+            del out[:]
+            try:
+                co.send(d)
+                items = []
+                for b in out:
+                    a = np.asarray(b)
+                    cells = []
+                    for j in range(a.shape[-1]):
+                        e = emitted + j
+                        good = ref is not None and e < ref.shape[-1] and a[..., j].shape == ref[..., e].shape and \
+                            np.allclose(a[..., j], ref[..., e], rtol=1e-9, atol=1e-12)
+                        cells.append(f'B{e * n}' if good else '?')
+                    emitted += a.shape[-1]
+                    flag = ''
+                    if not isinstance(b, P.PipelineData):
+                        flag = '!plain'
+                    else:
+                        if b.fs != FS / n:
+                            flag += '!fs'
+                        if b.channel != (None if dim == 1 else [None, None]):
+                            flag += '!ch'
+                        if b.metadata != {}:
+                            flag += '!md'
+                        if a.ndim != dim:
+                            flag += '!ndim'
+                    items.append(f"{getattr(b, 's0', '?')}{flag};{a.shape[-1]};{','.join(cells) or '-'}")
+                lines.append(bar(items))
+                pos += k
+                s0 += k
+            except Exception as e:
+                lines.append(f'err {exc_name(e)}')
+                dead = True
+        return lines
+
+    def _impl_capture(self, c):
+        import collections
+        P = _pipeline()
+        dim = c['dim']
+        q = collections.deque()
+        out = []
+        lg = logging.getLogger('psiaudio.pipeline')
+        old = lg.level
+        lg.setLevel(logging.CRITICAL + 1)                           # the stage logs every request at level ERROR
+        try:
+            co = P.capture(CAPFS, q, out.append)
+            lines, pos, dead = ['ok'], 0, False
+            labels = ['a', 'b'] if dim == 2 else 'ch'
+            for o in c['ops']:
+                if o[0] == 'q':
+                    q.append(None if o[1] is None else {'t0': o[1] / 16})
+                    lines.append('ok')
+                    continue
+                if dead:
+                    lines.append('err Dead')
+                    continue
+                k = o[2]
+                v = X0 + np.arange(pos, pos + k, dtype=float)
+                if dim == 2:
+                    v = np.arange(2)[:, None] * 1e6 + v[None, :]
+                d = P.PipelineData(v, fs=CAPFS, s0=c['s0'] + pos, channel=labels, metadata=dict(MD)) if o[1] == 'pd' else v
+                del out[:]
+                try:
+                    co.send(d)
+                    items = []
+                    for b in out:
+                        if b is Ellipsis:
+                            items.append('R')
+                        elif isinstance(b, P.PipelineData):
+                            md = dict(b.metadata)
+                            cap = md.pop('capture', 'missing')
+                            caps = 'None' if cap is None else (str(int(round(cap * 16))) if isinstance(cap, float) and cap * 16 == int(cap * 16) else f'?{cap}')
+                            flag = ''
+                            if md != MD:
+                                flag += '!md'
+                            if b.channel != labels or b.fs != CAPFS or b.ndim != dim:
+                                flag += '!ann'
+                            if isinstance(d, P.PipelineData) and d.metadata != MD:
+                                flag += '!mut'
+                            items.append(f"{int(b.s0) - c['s0']};{caps}{flag};{b.shape[-1]};{self._cols(b)}")
+                        elif isinstance(b, np.ndarray):
+                            items.append(f'_;_;{b.shape[-1]};{self._cols(b)}')
+                        else:
+                            items.append(f'?{type(b).__name__}')
+                    lines.append(bar(items))
+                    pos += k
+                except Exception as e:
+                    lines.append(f'err {exc_name(e)}')
+                    dead = True
+            return lines
+        finally:
+            lg.setLevel(old)
+
+    def _impl_events_to_info(self, c):
+        P = _pipeline()
+        base = {'k': 1, 'nested': [1]}
+        base0 = {'k': 1, 'nested': [1]}
+        out = []
+        co = P.events_to_info(EDGES[c['edge']], base, out.append)
+        lines, dead, seen = ['ok'], False, []
+        for sd in c['sends']:
+            if dead:
+                lines.append('err Dead')
+                continue
+            obj = P.Events([('rising', 3)], 0, 10, FS) if sd == 'events' else [(EDGES[e], float(t)) for e, t in sd]
+            del out[:]
+            try:
+                co.send(obj)
+                items = []
+                for r in out:
+                    if not isinstance(r, list):
+                        items.append(f'?{type(r).__name__}')
+                        continue
+                    cells = []
+                    for info in r:
+                        t0 = info.get('t0') if isinstance(info, dict) else None
+                        cell = f'I{int(t0)}' if isinstance(t0, float) and t0 == int(t0) else '?'
+                        if not isinstance(info, dict) or {k: v for k, v in info.items() if k != 't0'} != base0:
+                            cell += '!base'
+                        if info is base or any(info is x for x in seen):
+                            cell += '!alias'
+                        seen.append(info)
+                        cells.append(cell)
+                    items.append('L:' + (','.join(cells) or '-') + ('' if base == base0 else '!mut'))
+                lines.append(bar(items))
+            except Exception as e:
+                lines.append(f'err {exc_name(e)}')
+                dead = True
+        return lines
+
     # ------------------------------------------------------------------ oracle: the whole-signal definition
     @staticmethod
     def _cells(lines, prefix=''):
@@ -516,6 +761,12 @@ class Ext(Spec):
             return c['labels'] is not None and c['v'] in c['labels']
         if st == 'detrend':
             return c['kind'] in ('plain', 'pd3')
+        if st == 'rms_band':
+            return c['n'] >= 1 and all(o[0] == 'pd' and o[2] == 0 for o in c['ops'])
+        if st == 'capture':
+            return all(o[0] != 'p' or o[1] == 'pd' for o in c['ops'])
+        if st == 'events_to_info':
+            return 'events' not in c['sends']
         return True
 
     def known_behaviour(self, c, out):
@@ -529,16 +780,41 @@ class Ext(Spec):
             i = out.index('err ValueError')
             if c['chunks'][i - 1] == 0:
                 return 'detrend-linear-empty-batch'
+        if st == 'events_to_info' and 'err TypeError' in out:
+            i = out.index('err TypeError')
+            if c['sends'][i - 1] == 'events':
+                return 'events_to_info-Events-object-not-iterable'
+        if st == 'capture' and self.wellformed(c):
+            for cmd, o_at, lo, hi in self._capture_segments(c):
+                if cmd is not None and cmd[1] < o_at:
+                    return 'capture-late-request-forwards-nothing'
         return None
+
+    @staticmethod
+    def _capture_segments(c):
+        """the history cut at the chunks at which a queue entry is taken (one `popleft()` per chunk): for each entry
+        `(None | (r2, start sample), offset of the chunk at which it is taken, first op index, end op index)`"""
+        queue, segs, pos = [], [], 0
+        for j, o in enumerate(c['ops']):
+            if o[0] == 'q':
+                queue.append(o[1])
+            else:
+                if queue:
+                    r2 = queue.pop(0)
+                    if segs:
+                        segs[-1][3] = j
+                    segs.append([None if r2 is None else (r2, round(r2 / 16 * CAPFS)), pos, j, len(c['ops'])])
+                pos += o[2]
+        return segs
 
     def oracle(self, c, out):
         if out and out[0].startswith('HARNESS-EXC'):
             return out[0]
         if not self.wellformed(c):
             return None
-        if self.known_behaviour(c, out):
-            return None
         st = c['stage']
+        if st != 'capture' and self.known_behaviour(c, out):       # capture: the late request is part of the law checked below
+            return None
         errs = [l for l in out if l.startswith('err')]
         if errs:
             return f'raised on a legal input: {errs[0]}'
@@ -600,6 +876,55 @@ class Ext(Spec):
             t = 'E' if c['mode'] == 'none' else 'T'
             if self._cells(out) != [f'{t}{k}' for k in range(sum(c['chunks']))]:
                 return 'emitted epochs are not the per-epoch detrend of the whole input, in order'
+        elif st == 'rms_band':
+            n = c['n']
+            total = sum(o[1] for o in c['ops'])
+            blocks = [b.split(';') for l in out[1:] if l.startswith('ok ') and l != 'ok -' for b in l[3:].split('|')]
+            if self._cells(out) != [f'B{k * n}' for k in range(total // n)]:
+                return f'emitted values are not the band values of the {total // n} complete blocks of {n} samples of the whole input'
+            k = 0
+            for f in blocks:
+                if f[0] != str(k):
+                    return f'block {";".join(f)} does not start at output sample {k}'
+                k += int(f[1])
+        elif st == 'capture':
+            segs = self._capture_segments(c)
+            first = segs[0][2] if segs else len(c['ops'])
+            if any(l != 'ok -' for l, o in zip(out[1:first + 1], c['ops'][:first]) if o[0] == 'p'):
+                return 'something was forwarded before any request'
+            for cmd, o_at, lo, hi in segs:
+                seg = [l for l, o in zip(out[1 + lo:1 + hi], c['ops'][lo:hi]) if o[0] == 'p']
+                items = [b for l in seg if l != 'ok -' for b in l[3:].split('|')]
+                end = o_at + sum(o[2] for o in c['ops'][lo:hi] if o[0] == 'p')
+                if cmd is None:
+                    want_r, want = 0, []
+                else:
+                    want_r = 1
+                    want = [f'X{k}' for k in range(cmd[1], end)] if cmd[1] >= o_at else []   # late request: nothing (recorded behaviour)
+                if items[:want_r] != ['R'] * want_r or 'R' in items[want_r:]:
+                    return f'Ellipsis is not passed on exactly once, first, for the request taken at sample {o_at}'
+                got, nxt = [], None
+                for b in items[want_r:]:
+                    f = b.split(';')
+                    cells = [] if f[3] == '-' else f[3].split(',')
+                    if not cells:
+                        return 'an empty block was forwarded'
+                    if f[0] != cells[0][1:]:
+                        return f'block {b}: s0 is not the position of its first sample'
+                    if f[1] != str(cmd[0]):
+                        return f'block {b}: metadata["capture"] is not the t0 of the request'
+                    got += cells
+                if got != want:
+                    return f'forwarded samples {got[:4]}… are not the input from sample {cmd and cmd[1]} on (request taken at {o_at})'
+        elif st == 'events_to_info':
+            calls = [b for l in out[1:] if l.startswith('ok ') and l != 'ok -' for b in l[3:].split('|')]
+            if len(calls) != len(c['sends']) or any(l == 'ok -' or '|' in l for l in out[1:]):
+                return 'target is not called exactly once per block of events'
+            for cl, sd in zip(calls, c['sends']):
+                want = [f'I{t}' for e, t in sd if e == c['edge']]
+                got = [] if cl == 'L:-' else cl[2:].split(',')
+                if got != want:
+                    return f'infos {got} are not one per {EDGES[c["edge"]]} event, in order, with its time stamp {want}'
         elif st == 'broadcast':
             for j in range(c['k']):
                 got = [b.split(':')[1] for l in out[1:] if l.startswith('ok ') for b in l[3:].split('|') if b.split(':')[0] == str(j)]
